@@ -590,6 +590,9 @@ pub mod sys {
         );
         let r = ::libc::fcntl(fd, cmd, arg);
         let e = errno();
+        if cmd == F_DUPFD_CLOEXEC || cmd == F_DUPFD {
+            fd_new("dup", r);
+        }
         emit(
             "fcntl.ret",
             &[
@@ -669,6 +672,24 @@ pub mod sys {
     pub unsafe fn accept(fd: c_int, address: *mut sockaddr, len: *mut socklen_t) -> c_int {
         point("accept.call", &[("fd", fd as i64), ("ino", ino(fd))]);
         let r = ::libc::accept(fd, address, len);
+        let e = errno();
+        emit(
+            "accept.ret",
+            &[("fd", fd as i64), ("res", r as i64), ("ino", ino(r))],
+        );
+        fd_new("accept", r);
+        set_errno(e as i32);
+        r
+    }
+
+    pub unsafe fn accept4(
+        fd: c_int,
+        address: *mut sockaddr,
+        len: *mut socklen_t,
+        flags: c_int,
+    ) -> c_int {
+        point("accept.call", &[("fd", fd as i64), ("ino", ino(fd))]);
+        let r = ::libc::accept4(fd, address, len, flags);
         let e = errno();
         emit(
             "accept.ret",
